@@ -413,8 +413,6 @@ func (r *RecursiveDNSServer) marshal() ([]byte, error) {
 func (r *RecursiveDNSServer) unmarshal(b []byte) error {
 
 	value := b[2:]
-	// Skip 2 reserved bytes to get lifetime.
-	r.Lifetime = time.Duration(binary.BigEndian.Uint32(value[2:6])) * time.Second
 
 	// Determine the number of DNS servers specified using the method described
 	// in the RFC.  Remember, length is specified in units of 8 octets.
@@ -424,7 +422,7 @@ func (r *RecursiveDNSServer) unmarshal(b []byte) error {
 	// Make sure at least one server is present, and that the IPv6 addresses are
 	// the expected 16 byte length.
 	dividend := (int(b[1]) - 1) * 8 // ignore first 8 bytes for header and lifetime
-	if dividend%2 != 0 {
+	if dividend%net.IPv6len != 0 {
 		return errRDNSSBadServer
 	}
 
@@ -432,6 +430,8 @@ func (r *RecursiveDNSServer) unmarshal(b []byte) error {
 	if count == 0 {
 		return errRDNSSNoServers
 	}
+	// Skip 2 reserved bytes to get lifetime (a malformed option leaves the previous value alone).
+	r.Lifetime = time.Duration(binary.BigEndian.Uint32(value[2:6])) * time.Second
 
 	for i := 0; i < count; i++ {
 		// Determine the start and end byte offsets for each address,
